@@ -17,6 +17,10 @@ def grid():
     g = [0]
     for x in [1, 2, 7, 2**31, 2**32, 2**62, 2**63 - 1, 2**63, 2**64, 2**64 + 1, 2**64 - 1, 2**130 + 12345]:
         g += [x, -x]
+    # factors whose product lies next to the fixnum boundary: 2^k and 2^(63-k) with their neighbours, the integers around the square
+    # root of 2^63, 2^32 - 1 (bit lengths 32 + 32, product above 2^63)
+    for x in [2**16, 2**21, 2**31 - 1, 2**31 + 1, 2**32 - 1, 2**32 + 1, 2**42, 2**47, 3037000499, 3037000500, 2**62 - 1, 2**62 + 1]:
+        g += [x, -x]
     return g
 
 
@@ -94,6 +98,13 @@ def run(tier, seed):
                 if b == 0 and op in ("/", "floor", "ceiling", "truncate", "round", "mod", "rem"):
                     continue
                 add(op, a, b)
+    # (1b) every pair of small integers through the division family (ties of round with odd and even divisors, signs) and the rest
+    for a in range(-12, 13):
+        for b in range(-12, 13):
+            for op in INT2 + ["/", "*"]:
+                if b == 0 and op in ("/", "floor", "ceiling", "truncate", "round", "mod", "rem"):
+                    continue
+                add(op, a, b)
     # (2) ratios of grid values
     small = [x for x in g if abs(x) in (1, 2, 7, 2**31, 2**63, 2**64 + 1)]
     rats = [Fraction(n, d) for n in small for d in small if d > 0][:80]
@@ -151,7 +162,7 @@ def run(tier, seed):
     rep.cov.update({"states": res["states"], "transitions": res["lines"], "traces_validated_against_impl": len(stimuli),
                     "evaluations": len(stimuli), "distinct_nontrivial": len({(s["op"], s["a"], s["b"], s["k"]) for s in stimuli}),
                     "rule": f"all pairs of a {len(g)}-value boundary grid (0, +-1, +-2, +-7, +-2^31, +-2^32, +-2^62, 2^63-1, -2^63, +-2^63, +-2^64, "
-                            f"+-(2^64+-1), +-(2^130+12345)) x {len(ARITH + CMP + INT2)} binary operators, unary operators, ash / expt / isqrt, ratios of "
+                            f"+-(2^64+-1), +-(2^130+12345), factor pairs around the fixnum boundary: +-2^16, 2^21, 2^31+-1, 2^32+-1, 2^42, 2^47, 3037000499/500, 2^62+-1) x {len(ARITH + CMP + INT2)} binary operators, unary operators, ash / expt / isqrt, every pair of integers -12..12 through the integer division family, / and *, ratios of "
                             f"grid values, comparisons against adjacent double floats (exhaustive over the grid) + {extra} seeded operands up to "
                             "200 bits; operands are stored in variables and re-read after every call; every event is judged under TLC by the "
                             "acceptor NumericTrace: defining relations on limb arithmetic with verified certificates, lowest terms, "
